@@ -36,7 +36,7 @@ def coq_req(q):
 
 def coq_group(g):
     imps = "; ".join("(%s, %s)" % (cs(base(p)), cs(p)) for p in (g["imports"] or []))
-    return "Group %s [%s] [%s]" % ("true" if g["skip"] else "false", imps, "; ".join(coq_req(q) for q in g["reqs"]))
+    return "Group %s [%s] [%s]" % ("true" if g["skip"] else "false", imps, "; ".join(coq_req(q) for q in (g["reqs"] or [])))
 
 
 def eval_source(o):
@@ -74,7 +74,9 @@ def run(c):
     ]
     c.notes += [
         "SinkType.Is shares the Type.Is resolver code path (typematch.Parse with the loader's table) and is not exercised separately; "
-        "custom-filter GetType/GetInterface take fully-qualified names at run time and are not part of the model",
+        "custom-filter GetType/GetInterface (fully-qualified names, resolved at run time) are exercised against the oracle in "
+        "hand-written scenarios but are not part of the Coq model; an unresolvable name there panics at run time (not claimed)",
+        "every file is also loaded through VerifConvertAST + LoadFromIR into a second engine and must behave the same",
         "vendored copies are covered for Type.Is (path stripped at match time) and Implements/HasMethod (method sets)",
     ]
     c.build_theories()
@@ -145,6 +147,14 @@ def run(c):
             if mres is not None and m_failed != (not loaded) and sc["o_failed"] == (not loaded):
                 c.fail("corr", "model load_file and the engine disagree on whether the file loads", input=ctx,
                        expected=model[k], observed=sc["load_err"] or "loads")
+            # ---- the same file through the IR path (VerifConvertAST + LoadFromIR) into a second engine
+            if sc.get("load_err_ir") != "n/a":
+                if bool(sc.get("load_err_ir")) != (not loaded):
+                    c.fail("oracle", "Load and LoadFromIR disagree on whether the file loads", input=ctx,
+                           expected=sc["load_err"] or "loads", observed=sc.get("load_err_ir") or "loads")
+                elif loaded and (sc.get("obs_ir") or {}) != sc["obs"]:
+                    c.fail("oracle", "the rules loaded through LoadFromIR resolve names differently from Load", input=ctx,
+                           expected=sc["obs"], observed=sc.get("obs_ir"))
             if not loaded:
                 c.nontrivial.add((all_imports, "load-error", sc["load_err"].split(": ", 1)[-1][:60]))
                 # nothing of a failed file may be active
@@ -162,13 +172,23 @@ def run(c):
                 if g["skip"]:
                     if mg is not None and mg != "skipped":
                         c.fail("corr", "model does not skip a filtered group", input=dict(ctx, group=g["name"]), observed=mg)
-                    for j in range(len(g["reqs"])):
+                    for j in range(len(g["reqs"] or [])):
                         if sc["obs"].get("%s_r%d" % (g["name"], j)):
                             c.fail("oracle", "a group rejected by GroupFilter reports", input=dict(ctx, group=g["name"]),
                                    observed=sc["obs"]["%s_r%d" % (g["name"], j)], expected=[])
                     continue
+                for j, cu in enumerate(g.get("custom") or []):
+                    rid = "%s_c%d" % (g["name"], j)
+                    c.evaluations += 1
+                    op = "impl" if cu["call"] == "GetInterface" else "cident"
+                    exp = table.get("%s||%s" % (op, cu["target"]))
+                    obs = sc["obs"].get(rid, [])
+                    c.nontrivial.add((all_imports, "custom", cu["call"], cu["fqn"]))
+                    if exp is not None and obs != exp:
+                        c.fail("oracle", "a custom filter's ctx.%s(`%s`) does not denote the fully-qualified name as written" % (cu["call"], cu["fqn"]),
+                               input=dict(ctx, group=g["name"], imports=g["imports"]), expected=exp, observed=obs)
                 mtargets = mg.split(",") if mg not in (None, "skipped", "failed") else None
-                for j, q in enumerate(g["reqs"]):
+                for j, q in enumerate(g["reqs"] or []):
                     rid = "%s_r%d" % (g["name"], j)
                     c.evaluations += 1
                     obs = sc["obs"].get(rid, [])
